@@ -175,7 +175,16 @@ RESTRICT_GUARD = _gd("hwloc_topology_restrict", "topology", min_post=4,
 ALLOW_GUARD = _gd("hwloc_topology_allow", "topology", min_post=4,
     note="any failure leaves both allowed sets unchanged; frame = {errno, the two allowed sets}; all flag words, all NULL/non-NULL set combinations, hook present or not")
 
-PROPS["C19"] = GUARD_EPERM + [RESTRICT_GUARD]
+def _sh(name, unwind=5, cost=10, **kw):
+    return Job(name=name, driver="shmem.drv.c", entry="hp_" + name, mode="plain", unwind=unwind, min_post=0, cost=cost, family="shmem", **kw)
+
+SHMEM = [
+    _sh("tma_allocators_agree", note="for every request size (<= 4096) tma_get_length_malloc and tma_shmem_malloc advance by the same 8-rounded amount (induction step of 'length suffices'; loop-free)"),
+    _sh("hwloc_shmem_topology_get_length", note="flags rejected; result is a page multiple covering the padded header plus every rounded block of ANY request sequence of 3 blocks (dup replaced by its allocation contract); page sizes 4K/8K/16K/64K"),
+    _sh("hwloc_shmem_topology_write_fits", cost=60, note="write() with the length from get_length(): every block dup allocates lies inside [mapping+header, mapping+length); mmap asked for (address,length); other address => EBUSY + munmap; same request sequence in both passes (assumed), 3 blocks <= 2048 bytes"),
+    _sh("hwloc_shmem_topology_adopt_header", unwind=26, cost=20, note="adopt(): unknown flags, version / header length / address / length mismatch => -1/EINVAL without mapping; mapping is PROT_READ; other address => EBUSY + munmap; arbitrary 24 header bytes"),
+]
+PROPS["C19"] = GUARD_EPERM + [RESTRICT_GUARD] + SHMEM
 PROPS["C08"] = [RESTRICT_GUARD]
 PROPS["C02"] = [ALLOW_GUARD]
 
